@@ -2,6 +2,7 @@ import Driver.Wire
 import RdestModel.Swarm.Init
 import RdestModel.Swarm.Preds
 import RdestModel.Meta.Name
+import RdestModel.Swarm.Stats
 import RdestModel.Sha1
 namespace Driver
 open Rdest Rdest.Wire Rdest.Swarm
@@ -209,6 +210,38 @@ def handVerdict (prop : String) (args res : List String) : Verdict :=
       if !tilingOk Rdest.Gen.PIECE_BLOCK_SIZE len blocks then vProp "T1-blocks-do-not-tile-the-piece" tag
       else if blocks ≠ model then vDiff "left" (toString model) tag
       else vOk tag
+  | ["stats", opsS], [out] =>
+    -- the task's statistics and timer handler vs `runStats`; oracle (T4 of C14): first interval reports nothing, every
+    -- later one the mean of the last two intervals
+    let ops : List StatOp := (opsS.splitOn ",").filterMap fun t =>
+      match t.toList with
+      | 'd' :: r => (String.ofList r).toNat?.map StatOp.down
+      | 'u' :: r => (String.ofList r).toNat?.map StatOp.up
+      | ['x'] => some StatOp.unexpected
+      | ['t'] => some StatOp.tick
+      | _ => none
+    if ops.length ≠ (opsS.splitOn ",").length then vBad opsS else
+    if out = "P" then vProp "statistics-panic" "stats" else
+    let q := Rdest.Gen.MAX_STATS_QUEUE_SIZE
+    let rep (x : Option (Option Nat × Option Nat × Nat)) : String := match x with
+      | none => "-"
+      | some (d, u, x) => s!"{match d with | some v => toString v | none => "n"}:{match u with | some v => toString v | none => "n"}:{x}"
+    let model := ",".intercalate ((runStats q {} ops).map rep)
+    -- the oracle, computed from the script alone: per interval the (down, up, unexpected) totals
+    let totals : List (Nat × Nat × Nat) := (ops.foldl (fun (acc : List (Nat × Nat × Nat) × (Nat × Nat × Nat)) op =>
+      match op with
+      | .down n => (acc.1, (acc.2.1 + n, acc.2.2.1, acc.2.2.2))
+      | .up n => (acc.1, (acc.2.1, acc.2.2.1 + n, acc.2.2.2))
+      | .unexpected => (acc.1, (acc.2.1, acc.2.2.1, acc.2.2.2 + 1))
+      | .tick => (acc.1 ++ [acc.2], (0, 0, 0))) ([], (0, 0, 0))).1
+    let spec : List String := totals.zipIdx.map fun (w, k) =>
+      if k = 0 then "-" else
+        let p := totals.getD (k - 1) (0, 0, 0)
+        s!"{(w.1 + p.1) / 2}:{(w.2.1 + p.2.1) / 2}:{w.2.2}"
+    let tag := s!"stats-{min totals.length 4}-intervals"
+    if out ≠ ",".intercalate spec ∧ q = 2 then vProp "T4-reported-rate-is-not-the-mean-of-the-last-two-intervals" tag
+    else if out ≠ model then vDiff "stats" model tag
+    else vOk tag
   | ["name", hS], [out] =>
     match parseHex hS with
     | none => vBad hS
